@@ -29,6 +29,7 @@ def check(ctx: Ctx, ev: Evidence) -> list[Finding]:
     ev.rule("C05-R4", "write_data(path, data, offset): data and offset are the File Data PDU's, unmodified", 1)
     ev.rule("C05-R5", "Metadata acceptance for a file: exactly one of create/truncate on the resolved name, truncate iff file_exists", 2)
     ev.rule("C05-R6", "delete_file only when the transaction is cancelled, disposition-on-cancellation is set and the data is incomplete", 1)
+    ev.rule("C05-R7", "every File Data PDU accepted after the Metadata (receiving, check-limit and missing-data steps) reaches write_data", 3)
     a = ctx.ats("dest")
     h = a.h
     seen: set[str] = set()
@@ -83,6 +84,17 @@ def check(ctx: Ctx, ev: Evidence) -> list[Finding]:
                     ev.inst("C05-R6", k, "ok" if ok else "violation", x.site)
                     if not ok:
                         out.append(Finding("C05-R6", f"dest handler | delete_file | {k.split(': ')[1]}", "the destination file is deleted outside (cancelled, disposition flag set, data incomplete)", x.site, witness_of(a, e)))
+        # R7 must-write
+        if e.label == ("state_machine", "FD") and e.exc is None:
+            from ..atsq import step_of as _step_of
+            stp = _step_of(a, e.pre)
+            if stp in ("RECEIVING_FILE_DATA", "RECV_FILE_DATA_WITH_CHECK_LIMIT_HANDLING", "WAITING_FOR_MISSING_DATA") and not h.wget(e.pre, "_pdus_to_be_sent"):
+                wrote = any(x.name == "vfs.write_data" for _, x in vfs)
+                k = f"File Data accepted in step {stp} ({ename(h.wget(e.pre, '_params.pdu_conf.trans_mode'))}): write_data called: {wrote}"
+                if once(k):
+                    ev.inst("C05-R7", k, "ok" if wrote else "violation")
+                    if not wrote:
+                        out.append(Finding("C05-R7", f"dest handler | File Data accepted in {stp} but not written", f"a File Data PDU accepted in step {stp} is neither refused nor written to the destination file", "", witness_of(a, e)))
         # R2 stores to the name
         for i, x in enumerate(evs):
             if x.kind == "store" and x.name == "_DestFileParams.file_name":
@@ -106,7 +118,10 @@ def check(ctx: Ctx, ev: Evidence) -> list[Finding]:
                     if not ok:
                         out.append(Finding("C05-R2", f"dest handler | file_name := {rep[:80]} in {fn}", "the destination name is not built from the Metadata PDU's names with pure path operators behind the directory test", x.site, witness_of(a, e)))
         # R5
-        md_file = [x for x in evs if x.kind == "store" and x.name == "DestStateWrapper.step" and ename(x.args[0]) == "RECEIVING_FILE_DATA" and e.label == ("state_machine", "METADATA")]
+        r5_edge(a, e, evs, vfs, ev, out, once, "C05-R5")
+        md_file = []
+        if False:
+          md_file = [x for x in evs if x.kind == "store" and x.name == "DestStateWrapper.step" and ename(x.args[0]) == "RECEIVING_FILE_DATA" and e.label == ("state_machine", "METADATA")]
         if md_file:
             cr = [x for _, x in vfs if x.name == "vfs.create_file" and x.args[-1][0] == "ret"]
             tr = [x for _, x in vfs if x.name == "vfs.truncate_file" and x.args[-1][0] == "ret"]
@@ -125,6 +140,26 @@ def check(ctx: Ctx, ev: Evidence) -> list[Finding]:
     ev.extra["explanation"] = "every filestore event and every store to the destination name on every edge of the destination handler's abstract transition system"
     ev.assume("byte content after overlapping/duplicate writes and zero-filled gaps is write_data's semantics (C17), not decided here")
     return out
+
+
+def r5_edge(a, e, evs, vfs, ev, out, once, rule: str) -> None:
+    md_file = [x for x in evs if x.kind == "store" and x.name == "DestStateWrapper.step" and ename(x.args[0]) == "RECEIVING_FILE_DATA" and e.label == ("state_machine", "METADATA")]
+    if not md_file:
+        return
+    cr = [x for _, x in vfs if x.name == "vfs.create_file" and x.args[-1][0] == "ret"]
+    tr = [x for _, x in vfs if x.name == "vfs.truncate_file" and x.args[-1][0] == "ret"]
+    fe = [x for _, x in vfs if x.name == "vfs.file_exists"]
+    rejected = any(x.kind == "caught" and x.name == "PermissionError" for x in evs) or any(x.kind == "env" and x.name.startswith("vfs.") and x.args[-1][0] == "raises" for x in evs)
+    exists = fe[-1].args[-1] if fe else None
+    ok = rejected or (len(cr) + len(tr) == 1 and ((exists == ("ret", True) and len(tr) == 1) or (exists == ("ret", False) and len(cr) == 1)))
+    if e.exc is not None and e.exc.origin == "env":
+        ok = True
+    k = f"Metadata for a file: file_exists={exists}, create x{len(cr)}, truncate x{len(tr)}" + (" (filestore rejection path)" if rejected else "")
+    if once(k):
+        ev.inst(rule, k, "ok" if ok else "violation")
+        if not ok:
+            out.append(Finding(rule, f"dest handler | Metadata acceptance | {k}", "the destination file is not created or truncated exactly once when the Metadata arrives (truncate iff it exists)",
+                               md_file[0].site, witness_of(a, e)))
 
 
 def _calls_in(rep: str) -> list[str]:
